@@ -28,6 +28,25 @@ theorem main_line_le_4096 (f : LenFacts) (ht : f.tsDigits ≤ 10) (count entries
     lineLen f 15 (gobMap count entries) ≤ 4096 :=
   Oidc.Codec.main_line_le_4096 f ht count entries em inc hc hem hinc he
 
+/-- the attribute text of every line that sets a cookie (the model the correspondence runs compare, byte for byte, with every
+    line the implementation emits): Path=/, Max-Age = the session lifetime, HttpOnly, Secure when required, SameSite=Lax — and
+    nothing else (no Domain) -/
+theorem attributes (secure : Bool) (maxAge : Int) (h : 0 < maxAge) :
+    attrsOf secure maxAge = ["Path=/", s!"Max-Age={maxAge}", "HttpOnly"] ++ (if secure then ["Secure"] else []) ++ ["SameSite=Lax"] ∧
+    "HttpOnly" ∈ attrsOf secure maxAge ∧ "SameSite=Lax" ∈ attrsOf secure maxAge ∧ "Path=/" ∈ attrsOf secure maxAge ∧
+    (secure = true → "Secure" ∈ attrsOf secure maxAge) := by
+  unfold attrsOf
+  rw [if_pos h]
+  cases secure <;> simp
+
+/-- for the code as it is: the lifetime printed is the 24-hour session timeout -/
+theorem current_max_age : Oidc.Current.maxAgeSec = 86400 := by decide
+
+/-- the byte count `attrsLen` used by the length theorems is the length of that text plus the `Expires` attribute (39 bytes) -/
+theorem attrsLen_is_text_len (secure : Bool) :
+    attrsLen ⟨true, secure, 10⟩ = 39 + ((attrsOf secure 86400).map (fun a => a.length + 2)).sum := by
+  cases secure <;> decide
+
 /-- obligations against the regenerated facts: chunk size, URI cap, cookie names with the prefix and of the assumed lengths,
     and the attribute literal (HttpOnly, SameSite=Lax, Path=/ with no Domain, Max-Age = the 24-hour session timeout, Secure
     whenever forceHTTPS), assigned by `Save` to every session it writes -/
